@@ -61,6 +61,10 @@ const (
 
 var verifC03Stores = map[*Epoch]*verifC03Store{}
 
+// verifC03CollFinding: the known finding (if still listed as known) that a foreign-entry answer of the
+// index model belongs to in the obligation at hand.
+var verifC03CollFinding = "C03-S1-index-answer-unchecked"
+
 // verifC03Cid builds the CIDv1 (dag-cbor, sha2-256) whose digest is filled with byte tag.
 func verifC03Cid(tag byte) cid.Cid {
 	raw := make([]byte, 36)
@@ -172,7 +176,7 @@ func (st *verifC03Store) pick(name string, kind int, same func(o *verifC03Obj) b
 	}
 	// absent key with equal 24-bit hash: the index answers with another key's entry
 	coll := !same(st.objs[hit])
-	verifKnownFinding("C03-S1-index-answer-unchecked", coll)
+	verifKnownFinding(verifC03CollFinding, coll)
 	if coll {
 		st.collided = true
 	}
